@@ -16,9 +16,10 @@ PROP = "C08"
 LEVEL = "exploration"
 RULE = ("Conditional-write S3, 2-3 committers (append, multi-append, delete_files, expire, delete_snapshot, property change) with the real S3LockProvider or "
         "with a lock that grants everyone and always reports 'held'; extra actors: lease lapse (the lock object is aged past its lease at a scheduled instant) "
-        "and heartbeat renewal of a committer's lock (_renew_once). The deterministic scheduler yields before every S3 request, so a parked actor is a paused "
+        "and heartbeat renewal of a committer's lock (_renew_once); the pointer object may be missing when the committers start. The deterministic scheduler yields before every S3 request, so a parked actor is a paused "
         "committer / a conditional PUT delayed in flight (its precondition is evaluated when it lands). Exhaustive single-preemption enumeration for fixed "
-        "scenarios + Hypothesis PCT schedules (<=4 change points) over generated ones. Oracles: (1) refinement - every acknowledged commit is present exactly "
+        "scenarios, a 'frozen committer' family (A runs to decision i and is then STOPPED - it does not even run while the others sleep - until B has finished; every i), "
+        "+ Hypothesis PCT schedules (<=4 change points) over generated ones. Oracles: (1) refinement - every acknowledged commit is present exactly "
         "once in the pointer-flip chain (C01's oracle); (2) pointer monitor - when a committer's conditional pointer PUT lands, the content it replaces is the "
         "pointer content that committer read in its validation step; (3) fence - a committer whose lock object did not carry its id at its last ownership read "
         "never lands a pointer PUT. Non-trivial: another committer's pointer PUT landed between a committer's validation read and its own PUT attempt, or a "
@@ -36,6 +37,11 @@ def run_case(case):
         base = build_base(world, sc["nprior"], coarse=sc.get("clock") == "coarse")
         lock_key = world.key_prefix + "/.locks/metadata.lock"
         hint_key = world.key_prefix + "/" + HINT
+        if sc.get("pointer") == "lost":
+            # the pointer object is gone when the committers start (they recover by listing): re-creating it is a commit
+            # point like any other and must be conditional (create-if-absent)
+            world.fake.objects.pop(hint_key, None)
+            out["labels"].append("pointer-lost")
         state = {"hint_get": {}, "validated": {}, "holder_ok": {}, "ids": {}, "monitor": [], "others_put_since_validation": {}}
 
         def on_event(sch, a, phase, label, target, info):
@@ -134,6 +140,8 @@ FIXED = [
     {"lock": "real", "nprior": 1, "ops": [{"op": "append"}, {"op": "append"}], "extras": [{"kind": "lapse"}]},
     {"lock": "real", "nprior": 1, "ops": [{"op": "append"}, {"op": "set_prop"}], "extras": [{"kind": "lapse"}, {"kind": "renew", "of": 0}]},
     {"lock": "noexcl", "nprior": 1, "ops": [{"op": "multi"}, {"op": "delete", "which": 0}]},
+    {"lock": "noexcl", "nprior": 2, "pointer": "lost", "ops": [{"op": "append"}, {"op": "append"}]},
+    {"lock": "real", "nprior": 1, "pointer": "lost", "ops": [{"op": "append"}, {"op": "set_prop"}], "extras": [{"kind": "lapse"}]},
 ]
 
 
@@ -175,7 +183,8 @@ def pct_case(draw):
     m = n + len(extras)
     order = draw(st.permutations(list(range(m))))
     pre = [[draw(st.integers(1, 260)), draw(st.integers(0, m - 1))] for _ in range(draw(st.integers(0, 4)))]
-    return {"kind": "sched", "sc": {"lock": lock, "nprior": draw(st.integers(1, 3)), "clock": draw(st.sampled_from(["real", "coarse"])), "ops": ops, "extras": extras},
+    return {"kind": "sched", "sc": {"lock": lock, "nprior": draw(st.integers(1, 3)), "clock": draw(st.sampled_from(["real", "coarse"])), "ops": ops, "extras": extras,
+                                    **({"pointer": "lost"} if draw(st.integers(0, 4)) == 0 else {})},
             "schedule": {"order": list(order), "preempt": sorted(pre)}, "seed": draw(st.integers(0, 3))}
 
 
@@ -200,8 +209,41 @@ def run_takeover_enum(task):
     return res
 
 
+FROZEN = [
+    {"lock": "noexcl", "nprior": 1, "ops": [{"op": "append"}, {"op": "append"}]},
+    {"lock": "noexcl", "nprior": 1, "pointer": "lost", "ops": [{"op": "append"}, {"op": "append"}]},
+    {"lock": "real", "nprior": 1, "pointer": "lost", "ops": [{"op": "append"}, {"op": "append"}], "extras": [{"kind": "lapse"}]},
+    {"lock": "noexcl", "nprior": 2, "pointer": "lost", "ops": [{"op": "set_prop"}, {"op": "delete_snapshot", "which": 0}]},
+]
+
+
+def run_frozen_enum(task):
+    """'Paused committer' family with a truly STOPPED process: A runs alone up to decision i and is then frozen (it does not
+    run even while the others sleep in a retry or poll a lock); the lease lapses (if a lapse actor exists) and B runs its
+    whole operation; only then A continues - a stale holder / a pointer write delayed for arbitrarily long. Every i."""
+    res = Result()
+    sc = task["sc"]
+    n = len(sc["ops"]) + len(sc.get("extras", []))
+    order = [0] + list(range(2, n)) + [1]  # A, then the extras (lapse), then B
+    o = run_case({"kind": "sched", "sc": sc, "schedule": {"order": order}, "seed": 1})
+    D = o.get("decisions", 150)
+    for i in range(2, int(D) + 2):
+        if i % task["nshard"] != task["shard"]:
+            continue
+        schd = {"order": order, "freeze": [[i, 0]]}
+        case = {"kind": "sched", "sc": sc, "schedule": schd, "seed": 1}
+        o = run_case(case)
+        res.case(key=chash(case), nontrivial=o["nontrivial"], labels=sorted(set(o["labels"])) + ["enum-frozen-committer"], sample=case if i % 53 == 0 else None)
+        for b, w in o["violations"]:
+            res.violation(b, w + f" [scenario {sc}, schedule {schd}]", case)
+    return res
+
+
 def plan(tier, seed):
     tasks = []
+    for sc in (FROZEN if tier == "thorough" else FROZEN[:3]):
+        for s_ in range(2):
+            tasks.append({"kind": "frozen", "sc": sc, "shard": s_, "nshard": 2})
     for sc in FIXED:
         for s in range(3):
             tasks.append({"kind": "enum", "sc": sc, "shard": s, "nshard": 3})
@@ -221,6 +263,8 @@ def run_task(task):
         return run_enum(task)
     if task["kind"] == "takeover":
         return run_takeover_enum(task)
+    if task["kind"] == "frozen":
+        return run_frozen_enum(task)
     res = Result()
     campaign(pct_case(), run_case, task["n"], task["seed"], res, PROP, shrink=task["tier"] == "thorough")
     return res
